@@ -228,9 +228,53 @@ def judge(cfg, x, ref):
     return out
 
 
+def derive_after_use(acc):
+    """A mapping node that has been RUN, then re-configured with map_over on another parameter (and renamed):
+    the derived node must map over the new parameter."""
+    from hypergraph import Graph
+
+    from ..dsl import build_node, run_async, run_sync
+
+    for runner in ("sync", "async"):
+        h = H()
+        inner = T.set_async(T.prog([T.fn("mb", ["x", "w"], ["b0"], behav={"py": "('b', x, w)"})], name="item"), runner == "async")
+        base = build_node(T.gnode("item", inner), h)
+        n1 = base.map_over("x")
+        run = (lambda g, ins: run_sync(g, ins, h)) if runner == "sync" else (lambda g, ins: run_async(g, ins, h, None))
+        r1 = run(Graph([n1]), {"x": [1, 2], "w": 10})
+        exp1 = [("b", 1, 10), ("b", 2, 10)]
+        w_ = {"derive_after_use": True, "runner": runner}
+        acc.evaluations += 1
+        if r1.values.get("b0") != exp1:
+            acc.violation({"symptom": "mapping-node-alignment", "kind": "derive-after-use", "failing_items": False}, w_, f"map_over('x'): {r1.values}")
+        variants = [
+            ("map_over(w)", lambda: n1.map_over("w"), {"x": 1, "w": [10, 20, 30]}, [("b", 1, 10), ("b", 1, 20), ("b", 1, 30)]),
+            ("map_over(x,w,product)", lambda: n1.map_over("x", "w", mode="product"), {"x": [1, 2], "w": [10, 20]}, [("b", 1, 10), ("b", 1, 20), ("b", 2, 10), ("b", 2, 20)]),
+            ("with_inputs(x->xs)", lambda: n1.with_inputs(x="xs"), {"xs": [3, 4], "w": 10}, [("b", 3, 10), ("b", 4, 10)]),
+            ("map_over(w).with_inputs(w->ws)", lambda: n1.map_over("w").with_inputs(w="ws"), {"x": 1, "ws": [7, 8]}, [("b", 1, 7), ("b", 1, 8)]),
+        ]
+        for label, mk, ins, exp in variants:
+            acc.evaluations += 1
+            acc.key(("derive-after-use", runner, label))
+            try:
+                n2 = mk()
+                r2 = run(Graph([n2]), ins)
+                got = r2.values.get("b0")
+            except Exception as e:  # noqa: BLE001
+                got = f"{type(e).__name__}: {str(e)[:80]}"
+            if got != exp:
+                acc.violation({"symptom": "mapping-node-alignment", "kind": "derive-after-use", "failing_items": False}, w_, f"after running a node mapped over x, the derived node {label} gave {jsonable(got)} expected {jsonable(exp)}")
+            # the receiver itself still maps over x
+            r3 = run(Graph([n1]), {"x": [1, 2], "w": 10})
+            if r3.values.get("b0") != exp1:
+                acc.violation({"symptom": "mapping-node-alignment", "kind": "derive-after-use-receiver", "failing_items": False}, w_, f"deriving {label} changed the receiver: {jsonable(r3.values)}")
+
+
 def run_shard(shard):
     tier, seed, s, n = shard
     acc = Acc()
+    if s == 0:
+        derive_after_use(acc)
     for ci, cfg in enumerate(configs(tier)):
         if ci % n != s:
             continue
@@ -266,6 +310,10 @@ def coverage_extra(acc, tier, seed):
 
 
 def replay(rep):
+    if rep.get("derive_after_use"):
+        acc = Acc()
+        derive_after_use(acc)
+        return [v["message"] for v in acc.violations.values()]
     cfg = rep["config"]
     inner, ps, inputs, cs = materialize(cfg)
     ref = single_results(inner, ps, cs, cfg["bcast"], rep["runner"])
